@@ -373,6 +373,18 @@ def shared_desc(tys, t1rows, t2rows, rrows, cards):
                      [mkrow('R', 20 + i, list(v)) for i, v in enumerate(rrows)])
 
 
+def two_keys_desc(tys, trows, rrows, cards):
+    """Two associations to the same referred class over different identifying attributes: R1: R(X) -> T(Id),
+    R2: R(Y) -> T(B)."""
+    sc, tc = cards
+    return dict(classes=[dict(kind='T', attrs=[['Tag', 'INTEGER'], ['Id', tys[0]], ['B', tys[1]]]),
+                         dict(kind='R', attrs=[['Tag', 'INTEGER'], ['X', tys[0]], ['Y', tys[1]]])],
+                assocs=[dict(rel_id='R1', source=_end('R', ['X'], sc), target=_end('T', ['Id'], tc)),
+                        dict(rel_id='R2', source=_end('R', ['Y'], sc), target=_end('T', ['B'], tc))],
+                ids=[], rows=[mkrow('T', 10 + i, list(v)) for i, v in enumerate(trows)] +
+                              [mkrow('R', 20 + i, list(v)) for i, v in enumerate(rrows)])
+
+
 def reflexive_desc(ty, rows, cards):
     sc, tc = cards
     return dict(classes=[dict(kind='N', attrs=[['Tag', 'INTEGER'], ['Id', ty], ['Prev', ty]])],
@@ -409,6 +421,11 @@ def join_cases(quick):
                 for r in cwr(range(9), 2):
                     n += 1
                     yield ('shared', list(tys), t1, [t2], list(r), n % 4)
+    for tys in (SHARED_QUICK if quick else SHARED_ALL):
+        for t in cwr(range(9), 2):
+            for r in cwr(range(9), 1 if quick else 2):
+                n += 1
+                yield ('two-keys', list(tys), list(t), list(r), n % 4)
     for ty in G.CORE_TYPES:
         k = len(SINGLE[ty])
         pairs = list(itertools.product(range(k), repeat=2))
@@ -431,6 +448,10 @@ def join_desc(case):
         _, tys, t1, t2, r, c = case
         tup = [(COMPONENT[tys[0]][i], COMPONENT[tys[1]][j]) for i, j in itertools.product(range(3), repeat=2)]
         return shared_desc(tys, [COMPONENT[tys[0]][i] for i in t1], [tup[i] for i in t2], [tup[i] for i in r], CARD_ROT[c])
+    if kind == 'two-keys':
+        _, tys, t, r, c = case
+        tup = [(COMPONENT[tys[0]][i], COMPONENT[tys[1]][j]) for i, j in itertools.product(range(3), repeat=2)]
+        return two_keys_desc(tys, [tup[i] for i in t], [tup[i] for i in r], CARD_ROT[c])
     if kind == 'reflexive':
         _, ty, rows, c = case
         a = SINGLE[ty]
@@ -527,7 +548,7 @@ def run_order(stmts, order, split):
       bound='single keys of the 5 core types: all multisets of n referred x n referring rows (n=1,2,3) over {unset, null/zero, 2 values}; '
             '2-attribute keys (quick 5 type pairs, thorough 25): multisets of 2 x 2 rows (3 referring rows for 5 pairs in '
             'thorough) over 9 key tuples incl. null/unset components; shared referential attribute in two associations (quick 3, '
-            'thorough 9 type pairs); reflexive: multisets of 3 rows over 16 (Id, Prev) pairs; 4 cardinality pairs rotating; '
+            'thorough 9 type pairs); two associations to one class over different identifying attributes (same type pairs); reflexive: multisets of 3 rows over 16 (Id, Prev) pairs; 4 cardinality pairs rotating; '
             'API routes new/clone on non-reflexive populations within multiplicity')
 def join(ctx):
     if ctx.shard == 0:
@@ -695,7 +716,7 @@ def packaging_populations(quick):
 @item('packaging', stands_in_for=['bridgepoint.ooaofooa.ModelLoader.filename_input', 'xtuml.load.load_metamodel',
                                   'xtuml.load.ModelLoader.filename_input', 'xtuml.load.ModelLoader.file_input'], shards=4, weight=2,
       bound='populations of <=6 statements (quick 5, thorough 7): every partition of the statements into <=3 (quick) / <=4 '
-            '(thorough) files x 8 layouts (file list in both orders, bridgepoint loader over files, flat / nested directory, '
+            '(thorough) files x 8 layouts (quick: 4 alternating layouts for 3-file partitions) (file list in both orders, bridgepoint loader over files, flat / nested directory, '
             'flat / nested zip, file + directory); the bridgepoint loader with its preloaded ooaofooa schema once per '
             'population and layout, otherwise a subclass that skips the preload')
 def packaging(ctx):
@@ -707,7 +728,9 @@ def packaging(ctx):
             stmts = statements(desc, inferred, named_all)
             kinds = [c['kind'] for c in desc['classes']]
             for ai, assignment in enumerate(set_partitions(len(stmts), 3 if ctx.quick else 4)):
-                for layout in LAYOUTS:
+                for li, layout in enumerate(LAYOUTS):
+                    if ctx.quick and max(assignment) >= 2 and (li + ai) % 2:
+                        continue        # quick: 3-file partitions take every other layout, alternating
                     n += 1
                     if n % ctx.nshards != ctx.shard:
                         continue
